@@ -329,7 +329,7 @@ var idxExceptions = map[string]string{
 }
 
 func c06Idx(r *fw.Run, p *fw.Program, reach map[*ssa.Function]bool) {
-	ru := r.Rule("C06.idx", "an index, slice bound or make length that derives directly from a decode reader result is validated somewhere in the function (comparison, min/max, or a preceding read of that many bits/bytes) before it is used on a container of non-constant length", 4)
+	ru := r.Rule("C06.idx", "an index, slice bound or make length that derives directly from a decode reader result is validated in the function (comparison, min/max, or a read of that many bits/bytes that precedes the use on all paths) before it is used on a container of non-constant length", 4)
 	nSites := 0
 	for _, fn := range p.FqFunctions() {
 		if !strings.HasPrefix(pkgRel(fn), "format") {
@@ -337,6 +337,7 @@ func c06Idx(r *fw.Run, p *fw.Program, reach map[*ssa.Function]bool) {
 		}
 		// values that are compared / clamped / used as a validating read length anywhere in the function (incl. enclosing functions)
 		compared := map[ssa.Value]bool{}
+		readValidated := map[ssa.Value][]ssa.Instruction{}
 		for f := fn; f != nil; f = f.Parent() {
 			fw.EachInstr(f, func(ins ssa.Instruction) {
 				switch x := ins.(type) {
@@ -356,9 +357,15 @@ func c06Idx(r *fw.Run, p *fw.Program, reach map[*ssa.Function]bool) {
 					if callee := cc.StaticCallee(); callee != nil && callee.Signature.Recv() != nil && isDecodeD(callee.Signature.Recv().Type()) {
 						switch callee.Name() {
 						case "FieldRawLen", "RawLen", "BytesLen", "FramedFn", "FieldUTF8", "FieldFormatLen", "LimitedFn", "SeekRel":
+							// a read of that many bits/bytes validates the count (negative / past the end is a
+							// recoverable error) - for what comes after it
 							for _, a := range cc.Args[1:] {
 								if isIntT(a.Type()) {
-									valueSources(a, compared, 0)
+									tmp := map[ssa.Value]bool{}
+									valueSources(a, tmp, 0)
+									for s := range tmp {
+										readValidated[s] = append(readValidated[s], x)
+									}
 								}
 							}
 						}
@@ -390,6 +397,12 @@ func c06Idx(r *fw.Run, p *fw.Program, reach map[*ssa.Function]bool) {
 				if compared[s] {
 					ru.Ok(key, p.Rel(ins.Pos()), "operand validated in the function")
 					return
+				}
+				for _, v := range readValidated[s] {
+					if v.Parent() != fn || precedesOnAllPaths(v, ins) {
+						ru.Ok(key, p.Rel(ins.Pos()), "a read of that many bits precedes the use")
+						return
+					}
 				}
 			}
 			// interval proof (index into fixed table etc.)
